@@ -19,6 +19,7 @@ type PropDef struct {
 	ID         string
 	Funcs      []string // contract targets (suffix-matched against canonical keys)
 	Lemmas     []string
+	StrLemmas  []string
 	Bounded    []string // names of bounded checks (see bounded.go)
 	Assume     []string // A-* identifiers used
 	Inventory  []string // inventory checks (see inventory.go)
@@ -48,6 +49,8 @@ func loadProp(id string) (*PropDef, error) {
 			p.Funcs = append(p.Funcs, rest)
 		case "lemma":
 			p.Lemmas = append(p.Lemmas, rest)
+		case "strlemma":
+			p.StrLemmas = append(p.StrLemmas, rest)
 		case "bounded":
 			p.Bounded = append(p.Bounded, rest)
 		case "assume":
@@ -202,6 +205,15 @@ func runCheck(id, tier string, seed int, overlay map[string][]byte, writeEvidenc
 		}
 		e.RunLemma(l)
 	}
+	for _, sl := range prop.StrLemmas {
+		f := strLemmas[sl]
+		if f == nil {
+			e.curFunc = "strlemma." + sl
+			e.fail("strlemma."+sl+"#contract.target", "property file names a string lemma that does not exist")
+			continue
+		}
+		e.obls = append(e.obls, f(e)...)
+	}
 	// orphan contracts: a contract whose function no longer exists is an error of its own
 	for _, k := range sortedKeys(w.Contract) {
 		fc := w.Contract[k]
@@ -351,6 +363,7 @@ func runCheck(id, tier string, seed int, overlay map[string][]byte, writeEvidenc
 			"inlined_functions":         sortedKeys(e.inlined),
 			"externs_assumed":           externList,
 			"assumed_contracts":         assumedContracts,
+			"trusted_clauses":           sortedKeys(e.trusted),
 			"noise_calls":               sortedKeys(e.noiseCalls),
 			"havocked_calls":            sortedKeys(e.havocked),
 			"bounded_loops":             sortedKeys(e.unrolled),
